@@ -56,7 +56,14 @@ func judge(cf cfg, script []beh, out outcome, cancelAt time.Duration, allowed in
 		gap := e.t - lastT
 		lastT = e.t
 		if e.kind != 'A' {
-			if gap != 0 && !(cancelAt >= 0 && e.t == cancelAt) { // the cancelled pause ends at cancelAt
+			if gap != 0 && cancelAt >= 0 {
+				if e.t == cancelAt {
+					continue // the cancelled pause ends at cancelAt
+				}
+				return &driver.Fail{Sig: "cancellation during a pause does not end the call at once",
+					Detail: detail(fmt.Sprintf("context cancelled at t=%v, the send returned at t=%v", cancelAt, e.t))}, nil
+			}
+			if gap != 0 {
 				return &driver.Fail{Sig: "virtual time passes outside a retry pause (an answer is not handed on at once)",
 					Detail: detail(fmt.Sprintf("%v elapsed before event %c of send %d", gap, e.kind, e.send))}, nil
 			}
@@ -112,6 +119,10 @@ func judge(cf cfg, script []beh, out outcome, cancelAt time.Duration, allowed in
 					return &driver.Fail{Sig: "Retry-After of a 429 answer is not honoured within [MinWait, MaxWait]",
 						Detail: detail(fmt.Sprintf("Retry-After %v, pause %v, expected %v", ra, gap, w))}, nil
 				}
+			}
+			if k := len(pauses); k >= len(out.computed) || out.computed[k] != gap {
+				return &driver.Fail{Sig: "the pause on the clock is not the pause the policy computed",
+					Detail: detail(fmt.Sprintf("pause of %v before attempt %d; pauses granted by the policy: %v", gap, nAttempt, out.computed))}, nil
 			}
 			pauses = append(pauses, pause{after: nAttempt - 1, start: prev.t, dur: gap})
 		} else if gap != 0 {
